@@ -239,9 +239,17 @@ def exec_for(ex, s: ast.For, st):
     dom = iter_domain(ex, s, st)
     if spec is not None and (spec.get("inv") is not None):
         return _for_with_invariant(ex, s, st, dom, spec, ordn)
-    if not has_heap_effects(ex, s.body) and _is_search_shape(s):
-        return _search_loop(ex, s, st, dom, ordn)
+    if _is_search_shape(s):
+        mark = len(ex.obls)
+        try:
+            return _search_loop(ex, s, st, dom, ordn)
+        except NotSearch:
+            del ex.obls[mark:]
     return _havoc_loop(ex, s, st, dom, ordn)
+
+
+class NotSearch(Exception):
+    pass
 
 
 def _is_search_shape(s):
@@ -262,7 +270,7 @@ def _search_loop(ex, s, st, dom, ordn):
     # carried state check: a temp read before assignment inside the body would carry values across iterations
     carried = _reads_before_write(s.body, temps - _target_names(s.target))
     if carried:
-        return _havoc_loop(ex, s, st, dom, ordn)
+        raise NotSearch()
     outs = []
     i0 = z3.Int(T.fresh_name(f"i0_L{ordn}"))
     jq = z3.Int(T.fresh_name(f"jq_L{ordn}"))
@@ -273,9 +281,15 @@ def _search_loop(ex, s, st, dom, ordn):
     stq.pc.append(z3.And(jq >= 0, jq < dom.n))
     nobl = len(ex.obls)
     ex.assign(s.target, dom.at(jq, stq), stq, s)
+    heap0 = dict(stq.heap)
     body_outs = ex.run_block(s.body, stq)
     # obligations generated while exploring iteration jq hold for arbitrary jq -> keep (jq free)
     exit_conds = []
+    for o in body_outs:
+        if o.kind in ("normal", "continue"):
+            # a fall-through iteration must leave the heap untouched, otherwise this is not a search loop
+            if set(o.st.heap) != set(heap0) or any(not o.st.heap[k].eq(heap0[k]) for k in heap0):
+                raise NotSearch()
     for o in body_outs:
         if o.kind in ("break", "return", "raise"):
             exit_conds.append(z3.And(*o.st.pc[base_len + 1:]) if len(o.st.pc) > base_len + 1 else z3.BoolVal(True))
